@@ -67,11 +67,15 @@ def run(chk, orch):
     quick = chk.tier == "quick"
     chk.rule = ("each evaluation = one (crash point, phase) pair: the real pipeline is run under a seeded schedule, the whole "
                 "process tree is SIGKILLed before/after file-system event k (buffers lost, no destructors), then "
+                "(second fault kind 'sigint': KeyboardInterrupt is raised in the top-level process at event k instead - the stack "
+                "unwinds, finally blocks/destructors/exit handlers run under the same scheduler, the run may take any exit), then "
                 "`isoquant.py --resume` runs fault-free and all outputs are compared with the uninterrupted control run of "
                 "the same workload/cell; quick enumerates one representative index per distinct event label x phase, "
                 "thorough enumerates every index; distinct = distinct (workload, cell, stage, label, phase)")
     chk.assumptions = ["a kill loses exactly the user-space buffers; written bytes survive (no power-loss semantics)",
                        "C-level writes inside pysam/pyfaidx/sqlite are atomic events",
+                       "SIGINT arrives at tracked events only and at the top-level process only (kill -INT <pid>); while that "
+                       "process waits for its pool the exception surfaces after the workers have drained the queue",
                        "control run = fault-free run of the same workload under the same cell (attribution rule, DESIGN 2.6)"]
     plan = []
     wls = [
@@ -165,11 +169,16 @@ def run(chk, orch):
                         reps.append(v[-1])
                 cand = reps
             for seq, slot, label, occ in cand:
-                for phase in ("before", "after", "after+threads"):
+                for phase in ("before", "after", "after+threads", "sigint"):
                     a = common.job_args(spec, opts, cell)
                     if pres.get(wi):
                         a["pre"] = pres[wi]
                     rs = {}
+                    if phase == "sigint" and not (wi in (0, 1) or not quick):
+                        # the one kill signal that unwinds the stack (Ctrl+C, kill -INT, scancel --signal=INT): KeyboardInterrupt
+                        # is raised in the top-level process at this event (when the event belongs to a pool worker: after the
+                        # pool has drained its queue, as the executor does); finally blocks, destructors and exit handlers run
+                        continue
                     if phase == "after+threads":
                         # --resume with another --threads value (documented as allowed): quick tier, late stages of the
                         # first (single-threaded) workload only
@@ -177,6 +186,8 @@ def run(chk, orch):
                             continue
                         rs = {"threads": 2, "sched": {"policy": "spread", "seed": seq}}
                     a["fault"] = {"kind": "kill", "index": seq, "phase": "after" if phase == "after+threads" else phase}
+                    if phase == "sigint":
+                        a["fault"] = {"kind": "interrupt", "index": seq, "phase": "before"}
                     if not quick and chk.rng.random() < 0.3:
                         rs["threads"] = chk.rng.choice([1, 2, 4])
                         rs["sched"] = {"policy": chk.rng.choice(common.POLICIES), "seed": chk.rng.randrange(1000)}
@@ -242,7 +253,9 @@ def run(chk, orch):
                 chk.harness_error("crash landed on %r, expected %r" % (res["crash"].get("label"), label))
                 continue
             chk.evaluations += 1
-            chk.faults["kill-tree/" + phase] += 1
+            chk.faults[("kill-tree/" + phase) if phase != "sigint" else "sigint(KeyboardInterrupt raised at the event, stack unwinds)"] += 1
+            if phase == "sigint" and ":worker:" in ":" + label:
+                chk.probes["sigint_while_waiting_for_the_pool"] += 1
             if phase == "after+hashseed":
                 chk.faults["resume_under_another_hash_seed"] += 1
             chk.distinct.add(json.dumps([wi, rounds, stage, label, phase]))
@@ -274,9 +287,97 @@ def run(chk, orch):
                            "args": common.job_args(spec, opts, cell, **({"pre": pres[wi]} if pres.get(wi) else {}))},
                 "run": {"hashseed": cell["hashseed"], "fn": "scenarios:crash_resume", "args": a},
                 "expected": {"symptom": sym, "trace_sha256": res.get("trace_sha")}})
+        if rounds == 1:
+            restart_mode(chk, orch, quick)
         chk.extra["crash_points_enumerated_exhaustively_per_workload"] = not quick
         if quick or chk.time_left() < 120:
             break
+
+
+def restart_mode(chk, orch, quick):
+    """kill + --resume of a run that was started from saved read assignments (--read_assignments), with a history: an earlier
+    restart from the same saved assignments (other options) into the same folder was killed in the middle of its work.  Control =
+    the uninterrupted restart in a fresh folder."""
+    spec = {"seed": 41, "n_chr": 3, "genes_per_chr": 2, "reads_per_iso": 3, "paralogs": 1, "novel": 1}
+    base = {"spec": spec, "opts": {"threads": 1, "annotated": True}, "sched": {"policy": "serial", "seed": 0}}
+    orch.submit(0, "scenarios:reuse", dict(base), tag=("rctl",))
+    jobs = {}
+    earlier = [({"no_model_construction": True}, {"kind": "kill", "label_rx": r":open:a:.*_<chr>\.gene_counts\.tsv$", "nth": 1, "phase": "after"}),
+               ({"transcript_quant": "all", "gene_quant": "all"},
+                {"kind": "kill", "label_rx": r":open:w:.*_<chr>\.transcript_models\.gtf$", "nth": -1, "phase": "after"}),
+               (None, None)]
+    fracs = [0.02, 0.35, 0.7] if quick else [0.02, 0.1, 0.2, 0.35, 0.5, 0.6, 0.7, 0.8, 0.9, 0.97]
+    for ei, (eo, ef) in enumerate(earlier):
+        for fi, fr in enumerate(fracs):
+            for phase in ("before", "after"):
+                if quick and phase == "before" and fi != 1:
+                    continue
+                hist = {"fault": {"kind": "kill", "frac": fr, "phase": phase}}
+                if eo is not None:
+                    hist.update(earlier_opts=eo, earlier_fault=ef)
+                else:
+                    hist["skip_earlier"] = True
+                a = dict(base, restart_history=hist)
+                orch.submit(0, "scenarios:reuse", a, tag=("r", ei, fi, phase))
+                jobs[("r", ei, fi, phase)] = a
+    ctl = None
+    got = {}
+    for jid, tag, r in orch.results():
+        if not r.get("ok"):
+            chk.harness_error("restart mode: %s" % r.get("err"))
+            continue
+        chk.runs += 3
+        chk.events_simulated += r["res"].get("events", 0)
+        if tag[0] == "rctl":
+            ctl = r["res"]
+        else:
+            got[tag] = r["res"]
+    if ctl is None or ctl["first"]["exit"] != 0 or (ctl.get("second") or {}).get("exit") != 0:
+        chk.probes["restart_mode_control_failed_skipped"] += 1
+        return
+    want = ctl["second"]["digests"]
+    for tag, res in sorted(got.items()):
+        a = jobs[tag]
+        k = res.get("killed") or {}
+        if not k.get("crashed") or res["first"]["exit"] != 0:
+            chk.probes["restart_mode_kill_not_reached"] += 1
+            continue
+        chk.evaluations += 1
+        chk.faults["kill-tree/%s (run started from saved assignments)" % tag[3]] += 1
+        if (res.get("earlier") or {}).get("crashed"):
+            chk.faults["earlier_restart_from_the_same_saved_assignments_killed"] += 1
+        chk.distinct.add(json.dumps(["restart", tag[1], k.get("label"), tag[3]]))
+        s2 = res["second"]
+        sym = None
+        if s2["exit"] != 0:
+            sym = "exit%s:%s" % (s2["exit"], s2.get("failure_site", "?"))
+        else:
+            bad = sorted(x for x in set(want) | set(s2["digests"]) if want.get(x) != s2["digests"].get(x))
+            if bad:
+                sym = "exit0-differs:" + ",".join(bad)[:160]
+        if sym is None:
+            continue
+        chk.violation("R2" if sym.startswith("exit0") else "R1",
+                      {"mode": "read_assignments", "earlier_restart": ["killed, without models", "killed, other counting", "none"][tag[1]],
+                       "label": k.get("label"), "phase": tag[3], "symptom": sym},
+                      "run started from saved assignments, killed %s [%s] and resumed (earlier restart from the same saves: %s): %s\n%s" % (
+                          tag[3], k.get("label"), ["killed, run without model construction", "killed, other counting options", "none"][tag[1]],
+                          sym, (s2.get("log_tail") or "")[-500:]),
+                      {"engine": "pipeline", "oracle": "module:checks.c07", "kind": "restart", "control": dict(a, restart_history=None),
+                       "args": a, "expected": {"symptom": sym}})
+
+
+def replay(doc, orch):
+    i1 = orch.submit(0, "scenarios:reuse", {k: v for k, v in doc["control"].items() if k != "restart_history"})
+    i2 = orch.submit(0, "scenarios:reuse", doc["args"])
+    out = orch.run_all()
+    c, r = out[i1][1]["res"], out[i2][1]["res"]
+    s2 = r["second"]
+    if s2["exit"] != 0:
+        return True, "resumed run: exit %s %s\n%s" % (s2["exit"], s2.get("failure_site"), (s2.get("log_tail") or "")[-600:])
+    want = c["second"]["digests"]
+    bad = sorted(x for x in set(want) | set(s2["digests"]) if want.get(x) != s2["digests"].get(x))
+    return bool(bad), "differs from the uninterrupted restart: %s" % bad
 
 
 def relocate(doc, orch):
